@@ -147,9 +147,9 @@ FAMILIES = {
     "dispatch": dict(
         consts=dict(Raises="NoRaises", Kinds="FD_Kinds", Paths="FD_Paths", Consts="FD_Consts", Tmpls="None0",
                     Fns="None0", Bodies="FD_Bodies", DispVals="FD_Disp", Preds="None0", Presets="None0",
-                    MapPaths="None0", Leaves="FD_Leaves", Cbs="FD_Cbs"),
+                    MapPaths="None0", Leaves="FD_Leaves", Cbs="FD_Cbs", DispPaths="FD_DispPaths"),
         sharing=False, hist=2, bfs_consts=dict(Kinds="FD_KindsB", Cbs="FD_CbsB", Leaves="FD_LeavesB"),
-        runs={"quick": [dict(mode="bfs", max_nodes=4), dict(mode="sim", max_nodes=6, min_nodes=3, num=16000, depth=26, procs=8, sharing=True)],
+        runs={"quick": [dict(mode="bfs", max_nodes=4, split=4), dict(mode="sim", max_nodes=6, min_nodes=3, num=16000, depth=26, procs=8, sharing=True)],
               "thorough": [dict(mode="bfs", max_nodes=5), dict(mode="sim", max_nodes=7, min_nodes=3, num=80000, depth=32, procs=12, sharing=True)]},
         shards=[["ds"]], shard_defs={"ds": "SK_ds"}),
     "classes": dict(
@@ -273,7 +273,7 @@ def write_cfg(path, fam, tier, roots_def, invariants, emit, max_nodes, min_nodes
               nshards=1, shard=0):
     f = FAMILIES[fam]
     lines = ["SPECIFICATION MCSpec", "CONSTANTS"]
-    consts = dict(Cbs="NoCb", EffSets="NoEff", Caches="MemOnly", BothPresets="FALSE", CollKinds="AllColl", PlainOpts="FALSE", KindSeq="NoSeq")
+    consts = dict(Cbs="NoCb", EffSets="NoEff", Caches="MemOnly", BothPresets="FALSE", CollKinds="AllColl", PlainOpts="FALSE", KindSeq="NoSeq", DispPaths="None0")
     consts.update(f["consts"])
     if not sim and "bfs_consts" in f:
         consts.update(f["bfs_consts"])
